@@ -6,6 +6,7 @@ CONSTANT MaxPairs = 2
 CONSTANT Caps = {1, 2}
 CONSTANT Menu = "small"
 CONSTANT Reduce = TRUE
+CONSTANT EmitMod = 1
 INVARIANT Bounded
 INVARIANT NoDup
 INVARIANT CacheCoherent
